@@ -30,7 +30,7 @@ def lvalue_root(e):
             e = strip(kids(e)[0], casts=True)
         elif k == "ArraySubscriptExpr":
             e = strip(kids(e)[0], casts=True)
-        elif k == "UnaryOperator" and e.get("opcode") in ("*", "&"):
+        elif k == "UnaryOperator" and e.get("opcode") in ("*", "&", "++", "--"):
             e = strip(kids(e)[0], casts=True)
         elif k == "DeclRefExpr":
             return e.get("referencedDecl", {}).get("name"), list(reversed(fields))
